@@ -1103,7 +1103,7 @@ def extract(ctx: Ctx):
         log(f"[C03] {msg}")
         ctx.stats.notes.append(msg)
     for site, val in data["writers"]:
-        if val != "False" and not site.endswith("HAPServerHandler._pair_verify_two"):
+        if val != "False" and site != "routes: POST /pair-verify":
             msg = f"the privilege flag has another writer: {site} assigns `{val}`"
             log(f"[C03] {msg}")
             ctx.stats.notes.append(msg)
